@@ -66,6 +66,8 @@ def run_one(args: Tuple[str, Dict[str, object]]) -> Dict[str, object]:
                                             write_evidence=False, quiet=True)
         except AnalysisError as e:
             return {"id": m["id"], "status": "analysis-error", "detail": str(e)[:200], "rules": []}
+        except Exception as e:  # an engine crash on a variant is a checker defect: report it, do not abort the whole run
+            return {"id": m["id"], "status": "engine-crash", "detail": repr(e)[:200], "rules": []}
         rules = sorted({v.rule for v in viol})
         return {"id": m["id"], "status": "fired" if code == 1 else "silent", "rules": rules,
                 "detail": "; ".join(f"{v.rule}@{v.file.split('/')[-1]}:{v.line}" for v in viol[:4])}
